@@ -109,6 +109,8 @@ def module_attr(it, m, attr):
             return float("inf")
         if attr == "nan":
             return float("nan")
+        if attr == "ndarray":
+            return np.ndarray  # only meaningful as the second argument of isinstance
         if attr == "pi":
             return math.pi
         if attr == "random":
